@@ -328,6 +328,11 @@ func vxH17Remove(dotu bool, faults int) {
 	qt := []uint8{0, QTDIR, QTDIR, QTSYMLINK}[which]
 	p := vxRoot + "/" + name
 	f, uf := k.addFid(1, p, qt)
+	if vxBool("replaced-since-the-fid-was-walked") {
+		// the name was removed and created again as the other kind of object (by another fid or another process)
+		// after this fid was walked to it: what the fid remembers about it is stale, the path is what counts
+		f.Type ^= QTDIR
+	}
 	if vxBool("opened") {
 		k.openFid(f, OREAD)
 	}
@@ -360,9 +365,12 @@ func vxH17Remove(dotu bool, faults int) {
 		vxAssert(len(after) == len(before)-1, "exactly-one-name-removed")
 		vxReach("rremove")
 	}
+	if fs.budget == faults && which != 2 {
+		vxAssert(rc.Type == Rremove, "remove-succeeds-where-remove(3)-succeeds")
+	}
 	vxAssert(len(ops) <= 1, "more-operations-than-the-POSIX-equivalent")
 	if len(ops) == 1 {
-		vxAssert(ops[0].op == "remove", "operation-kind")
+		vxAssert(ops[0].op == "remove" || ops[0].op == "unlink" || ops[0].op == "rmdir", "operation-kind")
 		vxAssert(vxSamePath(ops[0].path, p), "operation-path")
 		if rc.Type == Rremove {
 			vxAssert(ops[0].err == nil, "success-although-an-operation-failed")
@@ -385,7 +393,11 @@ func vxH17Wstat(dotu bool, faults int) {
 	in.size = 5
 	oldMtime := in.mtime
 	p := vxRoot + "/d/f"
-	_, uf := k.addFid(1, p, 0)
+	f1, uf := k.addFid(1, p, 0)
+	// the fid may be open, in any mode: wstat works on the file, not through the descriptor's access rights
+	if om := vxChoose("fid-open", 4); om > 0 {
+		k.openFid(f1, []uint8{OREAD, OWRITE, ORDWR}[om-1])
+	}
 
 	var dir Dir
 	dir.Mode = vxU32("mode")
@@ -419,6 +431,13 @@ func vxH17Wstat(dotu bool, faults int) {
 	sig := vxSigCalls(fs.log)
 	failed := vxFailed(fs.log)
 	defer vxCheckErrno(rc, failed, dotu) // last, so that a wrong errno does not hide the other checks of this path
+	if fs.budget == faults && dir.Length != 0xFFFFFFFFFFFFFFFF && int64(dir.Length) >= 0 && dir.Mode == 0xFFFFFFFF && dir.Name == "" &&
+		dir.Mtime == 0xFFFFFFFF && dir.Atime == 0xFFFFFFFF && !idsGiven {
+		// a pure length change on a writable file: truncate(2) succeeds
+		vxAssert(rc.Type == Rwstat, "truncate-succeeds-where-truncate(2)-succeeds")
+		vxAssert(in.size == int64(dir.Length), "file-has-the-requested-length")
+		vxReach("pure-truncate")
+	}
 	if rc.Type == Rerror {
 		// the tree after a wstat that fails half-way: the statement is silent. But every operation that was
 		// attempted, including the failing one, must be the requested change on the right object: after the
